@@ -39,9 +39,48 @@ type vfRouteOut struct {
 	Err        string        `json:"err,omitempty"`
 }
 
+// overlapLive: some target shard has two live stream incarnations at the moment.
+func (e *vfRouteExec) overlapLive() bool {
+	for _, t := range e.tgt {
+		if n := len(t.incoming); n >= 2 {
+			old := t.incoming[n-2]
+			if !old.broken && !old.returned {
+				return true
+			}
+		}
+	}
+	return false
+}
+
 func (e *vfRouteExec) enabled() []string {
 	var out []string
 	sc := e.sc
+	if sc.Overlap {
+		for _, t := range e.tgt {
+			c := t.cur()
+			// the shard moves only when it holds nothing unconfirmed (everything it received is completed and its last
+			// acknowledgement covers its last watermark): a reconnect with tasks in flight is C04's subject
+			settled := c != nil && (c.high == nil || (len(c.acks) > 0 && c.acks[len(c.acks)-1] == *c.high))
+			if c != nil {
+				for _, q := range c.queue {
+					if !q.done {
+						settled = false
+					}
+				}
+			}
+			if c != nil && !c.broken && !c.returned && settled && len(t.incoming) == 1 && t.idx-1 < len(sc.PlaceTNext) && sc.PlaceTNext[t.idx-1] != sc.PlaceT[t.idx-1] {
+				out = append(out, fmt.Sprintf("reopenT:%d", t.idx))
+			}
+			if n := len(t.incoming); n >= 2 && !t.incoming[n-2].broken && !t.incoming[n-2].returned {
+				out = append(out, fmt.Sprintf("breakOldT:%d", t.idx))
+			}
+		}
+		if e.overlapLive() {
+			// while a shard has two live streams only the end of the old one (and acknowledgements) may happen: tasks sent
+			// into the overlap are the subject of C04/C08
+			return out
+		}
+	}
 	for _, t := range e.tgt {
 		if c := t.cur(); c == nil || c.broken || c.returned {
 			out = append(out, fmt.Sprintf("openT:%d", t.idx))
@@ -171,6 +210,16 @@ func (e *vfRouteExec) apply(a string) error {
 func (e *vfRouteExec) closingPhase(wait func(), K int) int {
 	e.closing = true
 	e.ungate(wait)
+	// a shard with two live streams (macro scenarios with Overlap): the old one ends first - what is sent into an
+	// overlap is the subject of C04/C08, not of the closing phase
+	for _, t := range e.tgt {
+		if n := len(t.incoming); n >= 2 && !t.incoming[n-2].broken && !t.incoming[n-2].returned && e.sc.Overlap {
+			e.logf("T%d#%d (the older stream) breaks", t.idx, n-2)
+			t.incoming[n-2].breakNow()
+			wait()
+		}
+	}
+	e.syncInstances(wait)
 	for _, t := range e.tgt {
 		if c := t.cur(); c == nil || c.returned || c.broken {
 			e.openTarget(t)
@@ -183,6 +232,7 @@ func (e *vfRouteExec) closingPhase(wait func(), K int) int {
 			wait()
 		}
 	}
+	e.syncInstances(wait)
 	for _, s := range e.src {
 		for s.pull() != nil && s.pull().alive() && s.pos < len(s.script) {
 			e.emit(s)
@@ -207,6 +257,7 @@ func (e *vfRouteExec) closingPhase(wait func(), K int) int {
 		e.now++
 		time.Sleep(time.Second)
 		wait()
+		e.syncInstances(wait)
 		all := true
 		for _, s := range e.src {
 			p := s.pull()
@@ -269,6 +320,7 @@ func vfRunRoute(t *testing.T, job *vfRouteJob) (out vfRouteOut) {
 					break
 				}
 				wait()
+				e.syncInstances(wait)
 			}
 			if out.Err == "" {
 				out.Key = e.stateKey()
@@ -362,7 +414,7 @@ func vfRouteBFS(t *testing.T, pool *vrt.Pool, sc *vfRouteScenario, maxDepth int,
 		}
 		for _, v := range out.Violations {
 			if props[v.Property] && (vfOnlySigs == nil || vfOnlySigs[v.Signature]) {
-				res.Violate(v.Signature, fmt.Sprintf("scenario %s, actions %v: %s\ntrace:\n  %s", sc.Name, path, v.Detail, strings.Join(out.Events, "\n  ")),
+				res.Violate(vfSigPrefix+v.Signature, fmt.Sprintf("scenario %s, actions %v: %s\ntrace:\n  %s", sc.Name, path, v.Detail, strings.Join(out.Events, "\n  ")),
 					map[string]any{"scenario": sc, "path": path, "closing": closing})
 			}
 		}
@@ -461,6 +513,21 @@ func vfScenarios(tier string, faults bool) []*vfRouteScenario {
 	out[len(out)-1].WMAdvance = 7
 	add("1x1-idle-source", 1, 1, [][]vfBatch{{}}, 1, 1)
 	out[len(out)-1].WMAdvance = 7
+	// two proxy instances: the source shard and target shard 1 are connected to instance n1, target shard 2 to n2, so
+	// tasks for T2 and its acknowledgements cross the intra-proxy streams
+	add("1x2-two-proxies", 1, 2, [][]vfBatch{{
+		{IDs: []int64{10}, Tgt: []int{1}, High: 11},
+		{IDs: []int64{11}, Tgt: []int{2}, High: 12},
+	}}, 1, 0)
+	out[len(out)-1].Proxies, out[len(out)-1].PlaceT, out[len(out)-1].PlaceS = 2, []int{0, 1}, []int{0}
+	// three instances: target shard 2 reconnects to another instance (n3) while its old stream on n2 is still alive
+	// (both instances claim the shard for a while), then the old stream ends
+	add("1x2-target-moves-between-proxies", 1, 2, [][]vfBatch{{
+		{IDs: []int64{10}, Tgt: []int{2}, High: 11},
+		{IDs: []int64{11}, Tgt: []int{2}, High: 12},
+	}}, 0, 0)
+	out[len(out)-1].Proxies, out[len(out)-1].PlaceT, out[len(out)-1].PlaceS = 3, []int{0, 1}, []int{0}
+	out[len(out)-1].PlaceTNext, out[len(out)-1].Overlap = []int{0, 2}, true
 	// two sources feeding the same target
 	if thorough {
 		add("2x1-shared-target", 2, 1, [][]vfBatch{
@@ -514,6 +581,9 @@ func vfScenarios(tier string, faults bool) []*vfRouteScenario {
 
 // vfOnlySigs, when set, restricts what a check reports to these signatures of its property.
 var vfOnlySigs map[string]bool
+
+// vfSigPrefix is put in front of every signature a check reports (a check that reports another property's oracles).
+var vfSigPrefix string
 
 func vfRouteDepth(tier string) int {
 	d := 60 // scenarios are finite: the search normally ends with an empty frontier
@@ -598,10 +668,46 @@ func vfRouteReplay(t *testing.T, path string, props map[string]bool, res *vrt.Re
 	out := vfRunRoute(t, &vfRouteJob{Scenario: rp.Scenario, Path: rp.Path, Closing: rp.Closing, Trace: true})
 	for _, v := range out.Violations {
 		if props[v.Property] && (vfOnlySigs == nil || vfOnlySigs[v.Signature]) {
-			res.Violate(v.Signature, v.Detail+"\ntrace:\n  "+strings.Join(out.Events, "\n  "), rp)
+			res.Violate(vfSigPrefix+v.Signature, v.Detail+"\ntrace:\n  "+strings.Join(out.Events, "\n  "), rp)
 		}
 	}
 	t.Logf("replay: err=%q violations=%d\n  %s", out.Err, len(out.Violations), strings.Join(out.Events, "\n  "))
+}
+
+// TestVerifC09MultiProxy: the routing clause of C09 end to end - the scenarios with several proxy instances only, any
+// delivery / acknowledgement oracle of the routing checks reported under C09 (a message addressed to a shard owned by
+// another instance must reach it through the intra-proxy streams, exactly once, and its acknowledgement must come back).
+func TestVerifC09MultiProxy(t *testing.T) {
+	if vrt.IsWorker() {
+		vfRouteWorker(t)
+		return
+	}
+	res := vrt.NewResult("C09", "model_checking")
+	defer func() {
+		if err := res.Write(); err != nil {
+			t.Fatal(err)
+		}
+	}()
+	props := map[string]bool{"C01": true, "C02": true, "C03": true}
+	if p := vrt.ReplayPath(); p != "" {
+		vfRouteReplay(t, p, props, res)
+		return
+	}
+	vfSigPrefix = "multi-proxy/"
+	pool := vrt.NewPool("TestVerifC09MultiProxy", vrt.Workers(), 60*time.Second)
+	deadline := vrt.Deadline()
+	st := &vfBFSStats{Outcomes: map[string]bool{}, Exhaustive: true}
+	var names []string
+	for _, sc := range vfScenarios(vrt.Tier(), false) {
+		if sc.Proxies < 2 {
+			continue
+		}
+		before := st.States
+		vfRouteBFS(t, pool, sc, vfRouteDepth(vrt.Tier()), true, props, res, deadline, st)
+		names = append(names, fmt.Sprintf("%s(states=%d)", sc.Name, st.States-before))
+	}
+	vfRouteReport(res, st, names, pool)
+	res.Assume("several proxy instances: ownership views are synchronised by a full state exchange after every environment action (the convergent outcome the first clause of C09 is about) and intra-proxy streams are in-memory pairs served by the peer's real handler; reconciliation of the intra-proxy streams is an explicit step after every action")
 }
 
 func TestVerifC01(t *testing.T) { vfRouteCheck(t, "C01", "TestVerifC01") }
